@@ -89,6 +89,15 @@ def core(ctx):
         yield {"kind": "small", "spec": {"name": "c", "nodes": nodes, "bbtypes": [], "insts": []},
                "assume": [], "allsingle": True}
     yield {"kind": "xtype"}
+    # boundary sizes: the empty circuit (one consistent valuation: the empty one), a single input, a single constant
+    yield {"kind": "small", "spec": {"name": "c", "nodes": [], "bbtypes": [], "insts": []}, "assume": [], "allsingle": False, "edit": False}
+    yield {"kind": "small", "spec": {"name": "c", "nodes": [["a", "input", [], True]], "bbtypes": [], "insts": []}, "assume": [], "allsingle": True}
+    yield {"kind": "small", "spec": {"name": "c", "nodes": [["k", "1", [], True]], "bbtypes": [], "insts": []}, "assume": [], "allsingle": True}
+    # parity gates in their own fan-in
+    for t in ("xor", "xnor"):
+        for k in (2, 3, 4):
+            nodes = [[f"i{j}", "input", [], False] for j in range(k - 1)] + [["g", t, ["g"] + [f"i{j}" for j in range(k - 1)], True]]
+            yield {"kind": "small", "spec": {"name": "c", "nodes": nodes, "bbtypes": [], "insts": []}, "assume": [], "allsingle": True}
     # encoder-like names (aux variable aliasing)
     nodes = [["a", "input", [], False], ["b", "input", [], False], ["c", "input", [], False],
              ["xor_a_b", "input", [], False], ["xor_b_a", "input", [], False],
